@@ -9,11 +9,13 @@
    errors and line numbers, tokenizer configuration, unread input) is the same for any two chunkings of the same
    input.  The theorem is generic: it holds for every table whose arm bodies have the shapes checked by
    [shape]/[no_eof] (reads first; a suspending arm only re-arranges look-ahead).
-   NOT PROVED (tied by differential runs in the check): (a) the chunked-queue interpreter with bulk reads and
-   exact_errors = false agrees with the reference semantics up to merging of adjacent character tokens;
-   (b) the Rust tokenizer agrees with the chunked-queue interpreter; (c) the tree-builder half. *)
+   ALSO PROVED (end of this file, TokIR/BulkSim.v): the chunked-queue interpreter with bulk reads and
+   exact_errors = false - the tokenizer's default mode - agrees with the reference semantics up to [obs] (parse errors
+   dropped, adjacent character tokens merged), hence its observable output is chunk-independent too.
+   NOT PROVED (tied by differential runs in the check): (b) the Rust tokenizer agrees with the chunked-queue
+   interpreter; (c) the tree-builder half. *)
 From Coq Require Import List NArith Bool.
-From HV Require Import TokIR.IR TokIR.Interp TokIR.Checks TokIR.Chunk TokIR.QueueSim TokIR.ChunkInv TokIR.ChunkExec Gen.GenHtmlTok Inst.InstHtmlTok Inst.InstChunk.
+From HV Require Import TokIR.IR TokIR.Interp TokIR.Checks TokIR.Chunk TokIR.QueueSim TokIR.ChunkInv TokIR.ChunkExec TokIR.BulkSim Gen.GenHtmlTok Inst.InstHtmlTok Inst.InstChunk Inst.InstBulk.
 Import ListNotations.
 
 Theorem C03_reference_semantics_chunk_independent_partial :
@@ -169,3 +171,61 @@ Theorem C03_tree_pending_table_text_test :
     TreeModelRules.pending_contains_nonspace (p ++ [(TreeTypes.NotSplit, a); (TreeTypes.NotSplit, b)] ++ q).
 Proof. exact TreeSplit.pending_nonspace_split. Qed.
 Print Assumptions C03_tree_pending_table_text_test.
+
+(* T2 for exact_errors = false (TokIR/BulkSim.v): the interpreter over the CHUNKED queue in the tokenizer's DEFAULT mode -
+   bulk reads up to the end of the first buffer, the SIMD scan of the data state with its own newline count, no
+   current_char update and no bad-character errors on the fast path - against the REFERENCE interpreter (flat queue, one
+   character at a time, exact_errors = true), for every list of chunks, sink script, injected text, start machine with a
+   well-formed queue, and fuel: if the default-mode run ends regularly (no fuel exhaustion in any feed call, in end() or
+   its EOF loop), the reference run with any fuel from some bound on reports the same results, leaves the same unread
+   input, has consumed the same number of characters, ends in the same configuration up to current_char, and has
+   delivered the same tokens up to [obs]: TError entries dropped, every maximal group of adjacent TChars entries merged
+   into ONE TChars entry carrying the line and consumed-count of the group's last character token, every other token kept
+   with its line and consumed-count.  Stuttering simulation, one fast step on a run r = |r| reference steps. *)
+Theorem C03_default_mode_against_reference :
+  forall ent c1 sk fuel inject chunks (m : mach hstate queue) log,
+  wfq (mq m) ->
+  let rf := drive_chunked html_flavour false html_table html_simd ent c1 sk fuel inject chunks m log in
+  regular (snd rf) ->
+  exists k, forall j,
+    let rs := drive_flat html_flavour true html_table html_simd ent c1 sk (k + j) inject chunks
+                (mkmach (mc m) (qflat (mq m)) (mout m) (mcons m)) log in
+    snd rs = snd rf /\ obs (mout (fst rs)) = obs (mout (fst rf)) /\ ceq (mc (fst rs)) (mc (fst rf)) /\
+    mq (fst rs) = qflat (mq (fst rf)) /\ mcons (fst rs) = mcons (fst rf).
+Proof. exact html_bulk_chunked_reference. Qed.
+Print Assumptions C03_default_mode_against_reference.
+
+(* the same in the shape of the property: one input, any start state, any sink script *)
+Theorem C03_default_mode_is_reference_up_to_obs :
+  forall ent c1 sk inject s0 last input fuel,
+  let fast := drive_chunked html_flavour false html_table html_simd ent c1 sk fuel inject [input]
+                (mkmach (init_cfg s0 last false) [] [] 0%N) [] in
+  regular (snd fast) ->
+  exists fuel0, forall fuel', (fuel0 <= fuel')%nat ->
+    let ref := drive_flat html_flavour true html_table html_simd ent c1 sk fuel' inject [input]
+                 (mkmach (init_cfg s0 last false) [] [] 0%N) [] in
+    obs (mout (fst fast)) = obs (mout (fst ref)) /\ snd fast = snd ref.
+Proof. exact html_default_mode_is_reference_up_to_obs. Qed.
+Print Assumptions C03_default_mode_is_reference_up_to_obs.
+
+(* T1 and T2 composed: in default mode the observable output of the chunked interpreter (tokens up to [obs]) and the
+   result of end() are independent of the chunking, script pauses and encoding suspensions included, for runs that end
+   every feed call regularly *)
+Theorem C03_default_mode_chunking_independent_obs :
+  forall ent c1 sk fuel1 fuel2 inj cs1 cs2 (m : mach hstate queue),
+  wfq (mq m) -> discard_bom (mc m) = false ->
+  all_nonempty cs1 -> all_nonempty cs2 -> cs1 <> [] -> cs2 <> [] -> concat cs1 = concat cs2 ->
+  let f1 := drive_chunked html_flavour false html_table html_simd ent c1 sk fuel1 inj cs1 m [] in
+  let f2 := drive_chunked html_flavour false html_table html_simd ent c1 sk fuel2 inj cs2 m [] in
+  regular (snd f1) -> regular (snd f2) -> all_done (tl (snd f1)) -> all_done (tl (snd f2)) ->
+  obs (mout (fst f1)) = obs (mout (fst f2)) /\ hd SSuspend (snd f1) = hd SSuspend (snd f2).
+Proof. exact html_default_mode_chunking_independent_obs. Qed.
+Print Assumptions C03_default_mode_chunking_independent_obs.
+
+(* non-vacuity (a test, by computation): see C08_bulk_obs_example - the raw token lists of the two runs differ (11
+   entries against 19), the observable ones agree (7) *)
+Example C03_default_mode_example :
+  regular_b (snd ex_fast) = true /\ snd ex_fast = snd ex_ref /\ obs (mout (fst ex_fast)) = obs (mout (fst ex_ref)) /\
+  (length (mout (fst ex_fast)), length (mout (fst ex_ref)), length (obs (mout (fst ex_ref)))) = (11, 19, 7)%nat.
+Proof. destruct ex_bulk_obs as (A & B & C & D & _). exact (conj A (conj B (conj C D))). Qed.
+Print Assumptions C03_default_mode_example.
